@@ -649,13 +649,7 @@ Definition st_eqb (a : res (bool * bool * nat * bool)) (b : option (res (bool * 
     )
 
 
-OPEN_GOALS = [
-    "breakup_roundtrip_statement (Proofs/TriplesProofs.v): for every binary tree with distinct leaves and every pop order, "
-    "tree_from_triples(tree_to_triples(T)) has the clades of T  -- stated, not proved; covered by batch 'roundtrip' "
-    "(every plane binary tree on <= 5 leaves, every pop order on the model side)",
-    "supertree_displays_statement (Proofs/TriplesProofs.v): a supertree built from the triples of binary trees displays every triple each of them displays "
-    "-- stated, not proved (needs the closure of the BreakUp triple set); build_sound gives only that it displays the emitted triples; covered by batch 'supertree'",
-]
+OPEN_GOALS: list = []
 
 TECHNIQUE = ("Coq proofs (invariant of union-find with path compression and union by rank; induction on union histories, on the group list of "
              "_binary, on fuel for BUILD/AllTrees, Aho et al. argument for completeness) of model = specification; model tied to the code by "
@@ -667,17 +661,21 @@ LEVEL_TEXT = ("Machine-checked theorems, for every size: on every state reachabl
               "tree_from_triples never raises on triples over a duplicate-free leaf list, a returned tree has exactly the given leaves and displays every "
               "triple (build_sound), and it returns a tree whenever any tree displays every triple (build_complete); all_trees_from_triples returns only "
               "binary displaying trees on the leaf set, no clade set twice (all_trees_sound_nodup, all_trees_once), and every binary displaying tree "
-              "(all_trees_complete). Correspondence: all unite histories up to length 3 (quick) / 4 (thorough) on 5 elements + random mixed histories to 12 "
+              "(all_trees_complete). For every binary tree with distinct leaves and every pop order of BreakUp, rebuilding from the emitted triples gives "
+              "the same clades (breakup_roundtrip), BreakUp never fails (tree_to_triples_total), and the tree built from the union of the triple sets of "
+              "several binary trees displays every triple any of them displays (supertree_displays). "
+              "Correspondence: all unite histories up to length 3 (quick) / 4 (thorough) on 5 elements + random mixed histories to 12 "
               "elements; all subsets of the 12 triples on 4 leaves (thorough; ~600 in quick) + random triple lists on 5-6 leaves; every plane binary tree "
               "on <= 5 leaves for the round trip; random compatible/incompatible tree sets for supertree.")
 LEVEL_NOTE = ("Trusted: Coq kernel; the hand-written models (correspondence is differential testing on the explored domain, not proof). "
-              "NOT proved, only tested by the correspondence batches and the independent Python oracle: the round trip tree_to_triples -> tree_from_triples "
-              "(batch 'roundtrip': the implementation's triple list must be one the model produces over all pop orders and the rebuilt clades must agree; "
-              "the oracle checks rebuilt clades = original clades) and the supertree clause (batch 'supertree': the model runs BreakUp with one fixed pop order, "
-              "so only order-independent observations are compared: existence, 'displays every input', number of binary supertrees; whether they are "
-              "order-independent is itself what the batch tests). trees_to_triples (set union) is not modelled. "
+              "trees_to_triples (union of the per-tree results through Python sets) is not modelled as a function: supertree_displays is stated for every "
+              "leaf list / triple list with the same elements as the unions, and the correspondence batch 'supertree' lets the model run BreakUp with one "
+              "fixed pop order, so it compares only order-independent observations (existence, 'displays every input tree', number of binary supertrees). "
+              "tree_to_triples pops from a set of node objects whose order is not observable: batch 'roundtrip' checks that the implementation's triple list is "
+              "one of the lists the model yields over all pop orders, with the same rebuilt clades. "
               "binary() is compared as a multiset of canonical partitions (the property does not fix the enumeration order); the iteration order of the "
               "Python set of representatives is not recorded because the theorem covers every order. "
               "find's representative, the order of groups in to_list and the child order of returned trees are implementation details not fixed by the "
               "property: compared only through canonical forms (a rank bookkeeping change that keeps the partition is therefore not reported). "
-              "All theorems closed under the global context (no axioms).")
+              "Theorems about triples assume distinct leaf names and triples whose third leaf differs from the first two; supertree_displays is stated for "
+              "genuine triples (first two leaves different). All theorems closed under the global context (no axioms).")
